@@ -1,57 +1,78 @@
 (* drv_C02.ml — driver: runs the extracted C02 model (Kalman prediction) on the
    case file given on stdin.  Operands as documented in cpp/h_C02.cpp. *)
-let blocks covs n k = List.init k (fun i -> lmx_of_mat (mat_block_cols covs (i * n) n))
+let blocks covs w k = List.init k (fun i -> lmx_of_mat (mat_block_cols covs (i * w) w))
 let flag c name = Caseio.has c name && Caseio.get_int c name <> 0
+let sfx name s = if s < 0 then name else Printf.sprintf "%s_%d" name s
+
+let layout k dl dc q dn =
+  { gl_components = nat_of_int k; gl_dim_linear = nat_of_int dl; gl_dim_circular = nat_of_int dc; gl_quat = q; gl_dim_noise = nat_of_int dn }
+
+(* the belief of step s: GaussianMixture(k, pl, pc) + pn noise rows *)
+let prev_of (c : Caseio.case) s : rawmix =
+  let g name = Caseio.get_mat c (sfx name s) and gi name = Caseio.get_int c (sfx name s) in
+  let means = g "means" in
+  let n = Array.length means and k = mat_cols means in
+  (((lmx_of_mat means, blocks (g "covs") n k), lvec_of_col (g "weights")), layout k (gi "pl") (gi "pc") false (gi "pn"))
+
+(* the output object of step s as it is handed to the call *)
+let old_of (c : Caseio.case) s : rawmix =
+  let g name = Caseio.get_mat c (sfx name s) and gi name = Caseio.get_int c (sfx name s) in
+  let l = layout (gi "ok") (gi "ol") (gi "oc") (gi "oq" <> 0) (gi "on") in
+  let w = int_of_nat (gl_dim_cov l) in
+  (((lmx_of_mat (g "old_means"), blocks (g "old_covs") w (gi "ok")), lvec_of_col (g "old_weights")), l)
+
+let exo_of (c : Caseio.case) s =
+  if Caseio.has c (sfx "B" s) then Some (lmx_of_mat (Caseio.get_mat c (sfx "B" s)), lmx_of_mat (Caseio.get_mat c (sfx "c" s))) else None
+
+let out_mix s ((((rm, rc), rw), l) : rawmix) =
+  let k = int_of_nat l.gl_components and n = int_of_nat (gl_dim l) in
+  Caseio.out_int (sfx "components" s) k;
+  Caseio.out_int (sfx "dim" s) n;
+  Caseio.out_int (sfx "dim_linear" s) (int_of_nat l.gl_dim_linear);
+  Caseio.out_int (sfx "dim_circular" s) (int_of_nat l.gl_dim_circular);
+  Caseio.out_int (sfx "dim_covariance" s) (int_of_nat (gl_dim_cov l));
+  Caseio.out_int (sfx "dim_noise" s) (int_of_nat l.gl_dim_noise);
+  Caseio.out_int (sfx "quat" s) (if l.gl_quat then 1 else 0);
+  Caseio.out_int (sfx "ncovs" s) (List.length rc);
+  Caseio.out_mat (sfx "means" s) (mat_of_lmx rm);
+  List.iteri (fun i p -> Caseio.out_mat (sfx (Printf.sprintf "cov%d" i) s) (mat_of_lmx p)) rc;
+  Caseio.out_mat (sfx "weights" s) (col_of_lvec rw)
+
 let () =
   let cases = Caseio.read_records "case" stdin in
   List.iter
     (fun (c : Caseio.case) ->
-      let f = lmx_of_mat (Caseio.get_mat c "F") and q = lmx_of_mat (Caseio.get_mat c "Q") in
-      let exo =
-        if Caseio.has c "B" then Some (lmx_of_mat (Caseio.get_mat c "B"), lmx_of_mat (Caseio.get_mat c "c")) else None in
       Caseio.out_begin c.id;
       if c.kind = "sequence" then begin
-        (* every call of the sequence against the STATELESS model on that call's inputs and that call's live matrices *)
+        (* the whole sequence through the extracted sequence entry point *)
         let nsteps = Caseio.get_int c "nsteps" in
-        for s = 0 to nsteps - 1 do
-          let g name = Caseio.get_mat c (Printf.sprintf "%s_%d" name s) in
-          let sf name = Printf.sprintf "%s_%d" name s in
-          let f = lmx_of_mat (g "F") and q = lmx_of_mat (g "Q") in
-          let exo = if Caseio.has c (sf "B") then Some (lmx_of_mat (g "B"), lmx_of_mat (g "c")) else None in
-          let means = g "means" and covs = g "covs" in
-          let n = Array.length means and k = mat_cols means in
-          let prev = ((lmx_of_mat means, blocks covs n k), lvec_of_col (g "weights")) in
-          let old = ((lmx_of_mat (g "old_means"), blocks (g "old_covs") n k), lvec_of_col (g "old_weights")) in
-          let ((rm, rc), rw) = c02_run fops (nat_of_int n) (nat_of_int k) f q exo false false false prev old in
-          Caseio.out_int (sf "components") (List.length rc);
-          Caseio.out_mat_shape (sf "means") n k (mat_of_lmx rm);
-          List.iteri (fun i p -> Caseio.out_mat (sf (Printf.sprintf "cov%d" i)) (mat_of_lmx p)) rc;
-          Caseio.out_mat (sf "weights") (col_of_lvec rw)
-        done
-      end else
-      if c.kind = "propagate" then begin
-        let cur = Caseio.get_mat c "cur" and old = Caseio.get_mat c "old" in
-        let n = Array.length cur and k = mat_cols cur in
-        let r = c02_propagate fops (nat_of_int n) (nat_of_int k) f exo (flag c "ss") (flag c "se") (lmx_of_mat cur) (lmx_of_mat old) in
-        Caseio.out_mat_shape "prop" n k (mat_of_lmx r)
+        let calls = List.init nsteps (fun s ->
+          let means = Caseio.get_mat c (sfx "means" s) in
+          { rc_n = nat_of_int (Array.length means); rc_k = nat_of_int (mat_cols means);
+            rc_F = lmx_of_mat (Caseio.get_mat c (sfx "F" s)); rc_Q = lmx_of_mat (Caseio.get_mat c (sfx "Q" s));
+            rc_exo = exo_of c s; rc_sp = flag c (sfx "sp" s); rc_ss = flag c (sfx "ss" s); rc_se = flag c (sfx "se" s);
+            rc_prev = prev_of c s; rc_old = old_of c s }) in
+        List.iteri (fun s r -> out_mix s r) (c02_seq fops calls)
       end else begin
-        let means = Caseio.get_mat c "means" and covs = Caseio.get_mat c "covs" and w = Caseio.get_mat c "weights" in
-        let n = Array.length means and k = mat_cols means in
-        let prev = ((lmx_of_mat means, blocks covs n k), lvec_of_col w) in
-        let old = ((lmx_of_mat (Caseio.get_mat c "old_means"), blocks (Caseio.get_mat c "old_covs") n k),
-                   lvec_of_col (Caseio.get_mat c "old_weights")) in
-        let ((rm, rc), rw) =
-          c02_run fops (nat_of_int n) (nat_of_int k) f q exo (flag c "sp") (flag c "ss") (flag c "se") prev old in
-        Caseio.out_int "components" (List.length rc);
-        Caseio.out_mat_shape "means" n k (mat_of_lmx rm);
-        List.iteri (fun i p -> Caseio.out_mat (Printf.sprintf "cov%d" i) (mat_of_lmx p)) rc;
-        Caseio.out_mat "weights" (col_of_lvec rw);
-        let spec = c02_spec fops (nat_of_int n) (nat_of_int k) f q exo (lmx_of_mat means) (blocks covs n k) in
-        List.iteri
-          (fun i (m, p) ->
-            Caseio.out_mat (Printf.sprintf "spec_mean%d" i) (mat_of_lmx m);
-            Caseio.out_mat (Printf.sprintf "spec_cov%d" i) (mat_of_lmx p))
-          spec
+        let f = lmx_of_mat (Caseio.get_mat c "F") and q = lmx_of_mat (Caseio.get_mat c "Q") in
+        let exo = exo_of c (-1) in
+        if c.kind = "propagate" then begin
+          let cur = Caseio.get_mat c "cur" and old = Caseio.get_mat c "old" in
+          let n = Array.length cur and k = mat_cols cur in
+          let r = c02_propagate fops (nat_of_int n) (nat_of_int k) f exo (flag c "ss") (flag c "se") (lmx_of_mat cur) (lmx_of_mat old) in
+          Caseio.out_mat_shape "prop" n k (mat_of_lmx r)
+        end else begin
+          let means = Caseio.get_mat c "means" and covs = Caseio.get_mat c "covs" in
+          let n = Array.length means and k = mat_cols means in
+          let r = c02_run fops (nat_of_int n) (nat_of_int k) f q exo (flag c "sp") (flag c "ss") (flag c "se") (prev_of c (-1)) (old_of c (-1)) in
+          out_mix (-1) r;
+          let spec = c02_spec fops (nat_of_int n) (nat_of_int k) f q exo (lmx_of_mat means) (blocks covs n k) in
+          List.iteri
+            (fun i (m, p) ->
+              Caseio.out_mat (Printf.sprintf "spec_mean%d" i) (mat_of_lmx m);
+              Caseio.out_mat (Printf.sprintf "spec_cov%d" i) (mat_of_lmx p))
+            spec
+        end
       end;
       Caseio.out_end ())
     cases
